@@ -9,6 +9,10 @@ VERIF = os.path.dirname(os.path.dirname(os.path.abspath(__file__)))
 
 # (name, property, file, old, new)
 M = [
+ ("css-hop-free-again", "C15", "internal/check/rewrites.go",
+  "\t\tSubject:   r.Subject,\n\t}, restDepth-1, false)\n}", "\t\tSubject:   r.Subject,\n\t}, restDepth, false)\n}"),
+ ("lookup-leaks-rlock", "C19", "internal/driver/config/namespace_memory.go",
+  "\treturn nil, errors.WithStack(herodot.ErrNotFound.WithReasonf(\"Unknown namespace with name %q.\", name))", "\ts.RLock()\n\treturn nil, errors.WithStack(herodot.ErrNotFound.WithReasonf(\"Unknown namespace with name %q.\", name))"),
  ("depth-off-by-one-expand", "C01", "internal/check/engine.go",
   "g.Add(e.checkExpandSubject(r, restDepth-1))", "g.Add(e.checkExpandSubject(r, restDepth-2))"),
  ("drop-skipdirect", "C15", "internal/check/engine.go",
